@@ -55,7 +55,9 @@
   that was used before are in `DdlModel.lean`.
   Not modelled: other value types (they behave like Int with their own hash key and order),
   constraints, `_id` indexes, ALTER TABLE, the condition depth limit, query timeouts
-  and result caps, the b-tree entry cap, durable mode.
+  and result caps, durable mode.  A statement is one infallible step here; the steps inside a row of
+  `tx_insert` / `tx_update` / `tx_delete` and the one of them that can fail in memory —
+  `btree_index_add` at the b-tree entry cap `max_btree_entries` — are in `CapModel.lean`.
 -/
 namespace Neumann.RelTx
 
